@@ -20,6 +20,7 @@ import (
 	codectypes "github.com/cosmos/cosmos-sdk/codec/types"
 	sdk "github.com/cosmos/cosmos-sdk/types"
 	govv1beta1 "github.com/cosmos/cosmos-sdk/x/gov/types/v1beta1"
+	stakingtypes "github.com/cosmos/cosmos-sdk/x/staking/types"
 	ethcommon "github.com/ethereum/go-ethereum/common"
 	ethtypes "github.com/ethereum/go-ethereum/core/types"
 	"pgregory.net/rapid"
@@ -96,6 +97,8 @@ func TestC09_BlocksNeverAbort(t *testing.T) {
 		hostileAccepted := 0
 		crossedHousekeeping := false
 		idSkips := 0
+		var witnesses []*chain.Validator
+		left, longAdvance := false, false
 		skyNonce := uint64(0)
 
 		// every block carries a canary transfer that must succeed
@@ -311,6 +314,71 @@ func TestC09_BlocksNeverAbort(t *testing.T) {
 			// Fixture standing for a long history: the global message id counter moves ahead by 1000..5000, as it does when
 			// that many messages were queued and have since been attested or pruned (ids are only ever compared, e.g.
 			// by the metrics scoring window of 1000 messages).
+			// A delivery attempt that never reaches consensus: the assignee reports an error, ONE validator supplies evidence.
+			// With leaveSet (that validator unbonds) and advance300 the message is later pruned with evidence only from
+			// validators that are no longer in the snapshot.
+			"partialEvidence": func(t *rapid.T) {
+				ms, _ := c.App.ConsensusKeeper.GetMessagesFromQueue(c.ReadCtx(), q, 0)
+				if len(ms) == 0 {
+					t.Skip("empty queue")
+				}
+				m := ms[rapid.IntRange(0, len(ms)-1).Draw(t, "msg")]
+				cm, err := m.ConsensusMsg(c.App.AppCodec())
+				if err != nil {
+					t.Skip("undecodable")
+				}
+				var assignee *chain.Validator
+				for _, v := range c.Vals {
+					if v.Val().String() == cm.(*evmtypes.Message).Assignee {
+						assignee = v
+					}
+				}
+				if assignee == nil {
+					t.Skip("no assignee")
+				}
+				w := c.Vals[rapid.IntRange(0, n-1).Draw(t, "witness")]
+				proof, _ := codectypes.NewAnyWithValue(&evmtypes.SmartContractExecutionErrorProof{ErrorMessage: "reverted"})
+				oks := block(t, "partialEvidence",
+					c.MustSign(assignee.Actor, &consensustypes.MsgSetErrorData{Metadata: chain.MD(assignee.Actor), MessageID: m.GetId(), QueueTypeName: q, Data: []byte("reverted")}),
+					c.MustSign(w.Actor, &consensustypes.MsgAddEvidence{Metadata: chain.MD(w.Actor), Proof: proof, MessageID: m.GetId(), QueueTypeName: q}))
+				log = append(log, fmt.Sprintf("h%d:partialEvidence(msg %d,witness v%d)=%v", c.H-1, m.GetId(), w.Index, oks))
+				if oks[1] {
+					witnesses = append(witnesses, w)
+				}
+			},
+			"leaveSet": func(t *rapid.T) {
+				if left || n < 4 {
+					t.Skip("not now")
+				}
+				v := c.Vals[rapid.IntRange(0, n-1).Draw(t, "val")]
+				if len(witnesses) > 0 && rapid.IntRange(0, 3).Draw(t, "aWitness") > 0 {
+					v = witnesses[len(witnesses)-1]
+				}
+				oks := block(t, "leaveSet", c.MustSign(v.Actor, stakingtypes.NewMsgUndelegate(v.Addr.String(), v.Val().String(), sdk.NewCoin(chain.BondDenom, v.Stake))))
+				left = left || oks[0]
+				log = append(log, fmt.Sprintf("h%d:leaveSet(v%d)=%v", c.H-1, v.Index, oks[0]))
+			},
+			"advance300": func(t *rapid.T) {
+				if longAdvance {
+					t.Skip("once")
+				}
+				longAdvance = true
+				// usually the latest witness leaves the validator set first (so that it is out of the snapshot when the
+				// message is pruned)
+				if len(witnesses) > 0 && !left && n >= 4 && rapid.IntRange(0, 3).Draw(t, "witnessLeavesFirst") > 0 {
+					v := witnesses[len(witnesses)-1]
+					oks := block(t, "leaveSet", c.MustSign(v.Actor, stakingtypes.NewMsgUndelegate(v.Addr.String(), v.Val().String(), sdk.NewCoin(chain.BondDenom, v.Stake))))
+					left = left || oks[0]
+					log = append(log, fmt.Sprintf("h%d:leaveSet(v%d)=%v", c.H-1, v.Index, oks[0]))
+				}
+				for i := 0; i < 300; i++ {
+					block(t, "advance300")
+				}
+				for c.H%50 != 2 { // past the next pruning height
+					block(t, "advance300")
+				}
+				log = append(log, fmt.Sprintf("advance(300+)->h%d", c.H))
+			},
 			"skipMessageIds": func(t *rapid.T) {
 				if idSkips >= 2 {
 					t.Skip("enough")
@@ -341,7 +409,7 @@ func TestC09_BlocksNeverAbort(t *testing.T) {
 			block(t, "final advance")
 		}
 		nt := hostileAccepted > 0 && crossedHousekeeping
-		evid.Case(t.Name(), fmt.Sprintf("start=%d %s", base, strings.Join(log, " ")), nt, []string{fmt.Sprintf("hostileAccepted=%d", min(hostileAccepted, 8)), fmt.Sprintf("start=%d", base), fmt.Sprintf("idSkips=%d", idSkips)}, func() any { return log })
+		evid.Case(t.Name(), fmt.Sprintf("start=%d %s", base, strings.Join(log, " ")), nt, []string{fmt.Sprintf("hostileAccepted=%d", min(hostileAccepted, 8)), fmt.Sprintf("start=%d", base), fmt.Sprintf("idSkips=%d", idSkips), fmt.Sprintf("prunedAfterWitnessLeft=%v", left && longAdvance && len(witnesses) > 0)}, func() any { return log })
 	})
 }
 
